@@ -120,4 +120,30 @@ def probe_c05(oblig, tier, seed):
     return {'found': False, 'tried': tried}
 
 
-PROBES = {'C01': probe_c01, 'C13': probe_c01, 'C05': probe_c05, 'C03': probe_c03, 'C06': probe_c06}
+def probe_c12(oblig, tier, seed):
+    """numeric ranges over boundary operands and simple brace lists, against the sequences the property statement prescribes."""
+    cases = []
+    vals = [0, 1, -1, 3, -3, 10, 2147483646, 2147483647, -2147483647, -2147483648]
+    for a in vals:
+        for b in vals:
+            if abs(a - b) > 6:
+                continue
+            for st in (None, 1, 2, 3):
+                step = st or 1
+                seq = list(range(a, b + 1, step)) if a <= b else list(range(a, b - 1, -step))
+                txt = '{%d..%d%s}' % (a, b, '' if st is None else '..%d' % st)
+                cases.append(('echo ' + txt, ' '.join(str(x) for x in seq) + '\n'))
+    cases += [('echo {a,b}', 'a b\n'), ('echo x{a,b}y', 'xay xby\n'), ('echo {a,b}{1,2}', 'a1 a2 b1 b2\n'), ("echo '{a,b}'", '{a,b}\n'),
+              ('echo "{1..3}"', '{1..3}\n'), ('echo {a,{b,c}}', 'a b c\n'), ('echo {a,b', '{a,b\n')]
+    random.Random(seed).shuffle(cases)
+    tried = 0
+    for line, exp in cases[:300 if tier == 'quick' else 3000]:
+        w = {'line': line, 'expect_stdout': exp, 'timeout': 5}
+        tried += 1
+        bad, detail = W.violates(w, W.observe(w))
+        if bad:
+            return _found(w, detail)
+    return {'found': False, 'tried': tried}
+
+
+PROBES = {'C12': probe_c12, 'C01': probe_c01, 'C13': probe_c01, 'C05': probe_c05, 'C03': probe_c03, 'C06': probe_c06}
